@@ -78,6 +78,23 @@ func (h *Cache) PullExact(messageSequence uint16, isClient bool) (*HandshakeCach
 	return nil, false
 }
 
+// Remove drops the handshake messages with the given sequence and sender.
+func (h *Cache) Remove(messageSequence uint16, isClient bool) {
+	h.mu.Lock()
+	defer h.mu.Unlock()
+
+	kept := h.cache[:0]
+	for _, item := range h.cache {
+		if item.MessageSequence != messageSequence || item.IsClient != isClient {
+			kept = append(kept, item)
+		}
+	}
+	for i := len(kept); i < len(h.cache); i++ {
+		h.cache[i] = nil
+	}
+	h.cache = kept
+}
+
 // Pull returns a list handshakes that match the requested rules.
 // The list will contain null entries for rules that can't be satisfied.
 // Multiple entries may match a rule, but only the last match is returned (ie ClientHello with cookies).
